@@ -20,7 +20,8 @@ CLAIM = dict(
     "and without comment (plain, with KVN/XML syntax characters), date_pos start/median/stop, foreign time scale, a "
     "6-maneuver sequence mixing kinds, frames, comments and date_pos, user-defined fields (0-5; underscored names, names "
     "sharing a last word, values with '=', '[', '<', '&'), 1-9 ephemeris points with 0/1/all covariances or a per-point "
-    "pattern of covariance frames, interpolation settings, one or two ephemerides (second one with its own scale, frame, "
+    "pattern of covariance frames, interpolation settings, the documented dumps() keyword arguments (name=, cospar_id=, both, originator=, kep=False), "
+    "one or two ephemerides (second one with its own scale, frame, "
     "interpolation, covariances), TLE orbits from text or built by hand (angles at the 360 deg wrap, classification), "
     "measurement type sets incl. single angle types, 1-5 observations, 2/3-leg paths with 2 or 3 participants, two "
     "paths with equal or different types) is written by the real writer in KVN and XML, read by the real reader and "
@@ -52,6 +53,8 @@ ASSUMPTIONS = [
     "maneuver epochs given in another scale than the state's can only keep their INSTANT (one TIME_SYSTEM per message); all other epochs keep scale and value",
     "tolerances: 1 us, 1 mm, 1 mm/s from the property text; one unit of the last written digit elsewhere (mc/ref/ccsds_cmp.py TOL)",
     "the degree of a LINEAR interpolation is not an independent setting",
+    "dumps(x, name=N, cospar_id=I) describes x under the name N / identifier I (all segments of an OEM); originator= and kep= are "
+    "writer options that only change the header / the optional osculating-element block",
 ]
 NOT_COVERED = (
     "centres other than the Earth and the Moon (need JPL kernels), frames beyond the 10 built-ins and the analytical Moon frame, more than 3 simultaneous deviations, "
@@ -76,6 +79,10 @@ COVPAT = {
     "gap-qsw-state": [None, "QSW", "state"],
 }
 
+# documented keyword arguments of dumps() (writer options): each alone, name and identifier together
+KWV = ["name", "id", "name+id", "originator"]
+KW_NAME, KW_ID, KW_ORIGINATOR = "OVERRIDE NAME", "1999-999Z", "VERIF LAB"
+
 # dimension -> deviation values (the base value is implicit); "needs": the dimension only changes the object
 # when the named dimension deviates too
 DIMS = {
@@ -95,6 +102,7 @@ DIMS = {
         "ud": [1, 2, "keys", "values", "empty"],
         "kep": ["off"],
         "name": ["absent", "bracket", "empty"],
+        "kw": KWV,
     },
     "oem": {
         "frame": FRAMES[1:] + ["Moon"],
@@ -107,6 +115,7 @@ DIMS = {
         "count": ["two", "list1", "two-mixed"],
         "name": ["absent"],
         "form": ["keplerian"],
+        "kw": KWV,
     },
     "omm": {
         "source": ["manual"],
@@ -116,6 +125,7 @@ DIMS = {
         "covframe": COVF,
         "ud": [1, 2, "keys", "values", "empty"],
         "name": ["empty", "bracket"],
+        "kw": KWV,
     },
     "tdm": {
         "types": ["azel", "doppler", "razel", "all", "az", "el"],
@@ -123,6 +133,7 @@ DIMS = {
         "path": ["2leg", "3leg-2sta"],
         "paths": ["two-seq", "two-mixed", "two-types"],
         "scale": SCALES[1:],
+        "kw": ["originator"],
     },
 }
 NEEDS = {
@@ -478,7 +489,27 @@ BUILD = {"opm": build_opm, "oem": build_oem, "omm": build_omm, "tdm": build_tdm}
 
 
 def dump_kwargs(mtype, dev):
-    return {"kep": False} if mtype == "opm" and dev.get("kep") == "off" else {}
+    kw = {"kep": False} if mtype == "opm" and dev.get("kep") == "off" else {}
+    opt = dev.get("kw", "")
+    if "name" in opt:
+        kw["name"] = KW_NAME
+    if "id" in opt:
+        kw["cospar_id"] = KW_ID
+    if opt == "originator":
+        kw["originator"] = KW_ORIGINATOR
+    return kw
+
+
+def apply_kwargs(desc, kw):
+    """The object a message written with name= / cospar_id= describes: the same one under the overriding name /
+    identifier (every segment of an OEM gets them)."""
+    targets = [desc["state"]] if desc["kind"] == "state-message" else desc.get("ephems", [])
+    for t in targets:
+        if "name" in kw:
+            t["name"] = kw["name"]
+        if "cospar_id" in kw:
+            t["id"] = kw["cospar_id"]
+    return desc
 
 
 # ---------------------------------------------------------------------------
@@ -512,6 +543,7 @@ def _exc(e):
 CLAUSES = {
     "dump": "the object can be written in this encoding",
     "format": "the encoding is the one selected by argument / configuration",
+    "header": "the header carries the originator given to dumps()",
     "load": "what was written can be read back",
     "reload": "reading back restores the same object",
     "kvn-vs-xml": "KVN and XML encodings of the same object decode to the same object",
@@ -584,6 +616,9 @@ def evaluate(mtype, dev, cfgfmt, rec):
     exp = C.describe(build(dev))
     if exp["kind"] == "unknown":
         raise RuntimeError("harness built an object the comparison model does not know")
+    exp = apply_kwargs(exp, kw)
+    originator = kw.get("originator", "N/A")
+    rekw = {"originator": kw["originator"]} if "originator" in kw else {}  # writer option, not content
     sk = spec_key(mtype, dev, cfgfmt)
     rec.state(sk)
 
@@ -602,6 +637,9 @@ def evaluate(mtype, dev, cfgfmt, rec):
             found("format", f"{fmt}->{got}", fmt, fmt, got, "dumps(fmt=...) produced the other encoding")
             continue
         txt[fmt] = t1
+        got = C.header_field(t1, "ORIGINATOR")
+        if got != originator:
+            found("header", "originator:" + ("ignored" if got == "N/A" else "changed"), fmt, originator, got)
         rec.trans()
         try:
             y = loads(t1)
@@ -634,7 +672,7 @@ def evaluate(mtype, dev, cfgfmt, rec):
             rec.trans(2)
             y = loads(txt[f])  # fresh object for every writer
             try:
-                t2 = dumps(y, fmt=g)
+                t2 = dumps(y, fmt=g, **rekw)
             except Exception as e:
                 found("redump", "raises:" + _exc(e), g, "text", _exc(e), f"read from {f}, written as {g}")
                 rec.outcome(f"{mtype}/redump-{g}-raises")
